@@ -249,8 +249,9 @@ func (e ellipse) draw(dst backend.Canvas, _ *attributes, _ *SVGImage, dims drawi
 	if rx == 0 || ry == 0 {
 		return nil
 	}
-	ratioX := rx / math.SqrtPi
-	ratioY := ry / math.SqrtPi
+	const arcToBezier = 4 * (math.Sqrt2 - 1) / 3
+	ratioX := rx * arcToBezier
+	ratioY := ry * arcToBezier
 	cx, cy := dims.point(e.cx, e.cy)
 
 	dst.MoveTo(cx+rx, cy)
